@@ -187,3 +187,16 @@ def parse_fresh(k, m):
         return False
     v2 = parse_unitvalue("2.5 " + t)
     return v2.value == 2.5 and _snap(v2.units) == ref and v2.units is not v1.units
+
+
+_HARD_DOUBLES = [0.1 + 0.2, 1.1 * 3, 2 ** 0.5, 1.0 / 3.0, 1e-05 * 3, math.pi, 123456789.12345679, 5e-324, 1.7976931348623157e308, 2.2250738585072014e-308,
+                 0.30000000000000004, 9007199254740993.0, 1e22, 1e23, 6.02214076e23 / 7, -0.1 - 0.2, 4.35, 0.7 + 0.1, 1e-300 * 3.3, 1 - 2 ** -53]
+
+
+def print_parse_hard(k, u):
+    """printing a quantity and reading the text back gives the SAME double, also for doubles whose shortest exact decimal form needs 17 significant digits"""
+    a = _HARD_DOUBLES[k % len(_HARD_DOUBLES)]
+    us = "ABGJ"[u % 4]
+    q = UnitValue(a, Units(SYS[us], UnitsDimensions(1, -2, 1)))
+    back = parse_unitvalue(str(q))
+    return back.value == a and back.units == q.units and str(back) == str(q)
